@@ -38,3 +38,6 @@ open A2l.IncW
 #print axioms each_include_once
 #print axioms include_iff_contributes
 #print axioms only_own_elements_written
+open A2l.Tree
+#print axioms comment_mark_is_token_file
+#print axioms included_comment_not_written
